@@ -170,9 +170,9 @@ def validate_sarif(doc):
                         _str(s["justification"], ww + ".justification")
 
 
-# RFC 3986 URI-reference (schema: artifactLocation.uri has format uri-reference; format checking is
-# optional in JSON Schema draft-07, so this is reported separately from validate_sarif)
-_URI_OK = re.compile(r"^(?:[A-Za-z0-9\-._~!$&'()*+,;=:@/?#\[\]]|%[0-9A-Fa-f]{2})*$")
+# RFC 3986 URI-reference as the tool is required to write it (schema: artifactLocation.uri has format uri-reference):
+# unreserved characters, the path separator and complete upper-case escapes only
+_URI_OK = re.compile(r"^(?:[A-Za-z0-9\-._~/]|%[0-9A-F]{2})*$")
 
 
 def is_uri_reference(s):
@@ -237,7 +237,7 @@ def parse_sarif(text):
     validate_sarif(j)
     if len(j["runs"]) != 1:
         raise Bad("expected exactly one run")
-    entries, bad_uris = [], []
+    entries, bad_uris, uris = [], [], []
     for r in j["runs"][0].get("results", []):
         try:
             uri = r["locations"][0]["physicalLocation"]["artifactLocation"]["uri"]
@@ -248,10 +248,12 @@ def parse_sarif(text):
         st = sarif_status(r)
         if (lvl == "note") != bool(r.get("suppressions")):
             raise Bad("level note and suppressions disagree")
-        entries.append((uri, st))
+        # the path a conforming consumer reads out of the uri
+        entries.append((percent_decode(uri), st))
+        uris.append(uri)
         if not is_uri_reference(uri):
             bad_uris.append(uri)
-    return {"entries": entries, "summary": None, "bad_uris": bad_uris, "doc": j}
+    return {"entries": entries, "summary": None, "bad_uris": bad_uris, "uris": uris, "doc": j}
 
 
 _TEXT_HEAD = re.compile(r"(?m)^(✓|⚠|✗|◉) (?:\x1b\[\d+m)?(PASSED|WARNING|FAILED|GRANDFATHERED)(?:\x1b\[0m)?: ")
